@@ -4,6 +4,7 @@
 package trie
 
 import (
+	"encoding/binary"
 	"encoding/hex"
 	"fmt"
 	"io"
@@ -29,6 +30,12 @@ func (rawEnc) Decode(b []byte) (int, interface{}) {
 }
 func (rawEnc) GetSize(d interface{}) int   { return len(d.([]byte)) }
 func (rawEnc) GetEncodedSize(b []byte) int { return len(b) }
+
+type te7 struct {
+	A int32
+	B uint16
+	C uint8
+}
 
 // State of the interpreter: one current instance.
 type State struct {
@@ -64,6 +71,13 @@ func EncoderOf(name string) encode.Encoder {
 		return encode.Int{}
 	case "s16":
 		return encode.String16{}
+	case "te7":
+		// a *encode.TypeEncoder over a fixed-size struct (7 bytes, little endian)
+		e, err := encode.NewTypeEncoderEndian(te7{}, binary.LittleEndian)
+		if err != nil {
+			panic(err)
+		}
+		return e
 	}
 	if strings.HasPrefix(name, "bytes") {
 		n, err := strconv.Atoi(name[5:])
